@@ -192,18 +192,15 @@ func runHubProgram(h hubAPI, p hubProgram) (ds []deliverRec, rs []receiveRec, cb
 	}
 	done := make(chan struct{})
 	go func() { pwg.Wait(); close(done) }()
-	select {
-	case <-done:
-	case <-time.After(3 * time.Second):
+	// patient limits (ev.Patient): 3 s on a responsive machine, longer on a stalled one
+	if !ev.PatientCh(3*time.Second, done) {
 		stuck = "a Deliver call did not return within 3 s although receivers were available or its context had been cancelled"
 	}
 	stop.Store(true)
 	stopAll()
 	done2 := make(chan struct{})
 	go func() { rwg.Wait(); close(done2) }()
-	select {
-	case <-done2:
-	case <-time.After(3 * time.Second):
+	if !ev.PatientCh(3*time.Second, done2) {
 		if stuck == "" {
 			stuck = "a Receive/ServeAsk call did not return within 3 s of its context being cancelled"
 		}
@@ -214,6 +211,12 @@ func runHubProgram(h hubAPI, p hubProgram) (ds []deliverRec, rs []receiveRec, cb
 }
 
 const promptness = 500 * time.Millisecond
+
+// c13CaseStart is set when a case begins; the promptness allowed to cancelled calls grows with the
+// scheduling lag observed since then (a goroutine whose context was cancelled still needs a CPU to return).
+var c13CaseStart = time.Now()
+
+func prompt() time.Duration { return promptness + 20*ev.MaxLagSince(c13CaseStart) }
 
 func checkHubHistory(isAsk bool, ds []deliverRec, rs []receiveRec, cbs []cbRec) (problem string, overlap bool) {
 	byID := map[int][]cbRec{}
@@ -241,7 +244,7 @@ func checkHubHistory(isAsk bool, ds []deliverRec, rs []receiveRec, cbs []cbRec) 
 			if len(list) != 0 {
 				return fmt.Sprintf("Deliver(%d) returned error %v although a callback (receiver %d) saw the message", d.id, d.err, list[0].recv), false
 			}
-			if d.cancelAt > 0 && d.ret > d.cancelAt+promptness {
+			if d.cancelAt > 0 && d.ret > d.cancelAt+prompt() {
 				return fmt.Sprintf("Deliver(%d) was cancelled at %v before being committed but returned at %v", d.id, d.cancelAt, d.ret), false
 			}
 		}
@@ -260,7 +263,7 @@ func checkHubHistory(isAsk bool, ds []deliverRec, rs []receiveRec, cbs []cbRec) 
 			if len(r.callbacks) != 0 {
 				return fmt.Sprintf("a Receive call returned error %v after running a callback for message %d (the message is lost to the caller)", r.err, r.callbacks[0]), false
 			}
-			if r.cancelAt > 0 && r.ret > r.cancelAt+promptness {
+			if r.cancelAt > 0 && r.ret > r.cancelAt+prompt() {
 				return fmt.Sprintf("a Receive call cancelled at %v returned only at %v", r.cancelAt, r.ret), false
 			}
 		}
@@ -286,6 +289,7 @@ func checkHubHistory(isAsk bool, ds []deliverRec, rs []receiveRec, cbs []cbRec) 
 
 func hubHistoryTest(t *testing.T, sub string, isAsk bool, mk func() hubAPI) {
 	rapid.Check(t, func(t *rapid.T) {
+		c13CaseStart = time.Now()
 		p := genHubProgram(t)
 		h := mk()
 		ds, rs, cbs, stuck := runHubProgram(h, p)
@@ -357,6 +361,7 @@ func TestC13Queue(t *testing.T) {
 	const sub = "C13.queue_histories"
 	ev.Rule(sub, "rapid: bounded queue of capacity 1-8 and MTU 64; 1-4 producers deliver 1-10 tagged messages each (some larger than the MTU), 1-3 receivers with per-call cancel times, optional Purge and Close at generated times, GOMAXPROCS in {1,2,16}. Oracle: Deliver never blocks (< 50 ms); every accepted message is received exactly once with its own content, or purged, or still queued when the queue is closed; a refused message is never received; cancelled receives return within 500 ms; the number of messages accounted for equals the number accepted. non-trivial = queue full at least once or a cancel/close during the run; distinct by program")
 	rapid.Check(t, func(t *rapid.T) {
+		c13CaseStart = time.Now()
 		capacity := rapid.IntRange(1, 8).Draw(t, "cap")
 		nProd := rapid.IntRange(1, 4).Draw(t, "producers")
 		nRecv := rapid.IntRange(1, 3).Draw(t, "receivers")
@@ -398,7 +403,7 @@ func TestC13Queue(t *testing.T) {
 						}
 						mu.Unlock()
 					})
-					if err != nil && !cancelAt.IsZero() && time.Since(cancelAt) > promptness {
+					if err != nil && !cancelAt.IsZero() && time.Since(cancelAt) > prompt() {
 						mu.Lock()
 						problems = append(problems, fmt.Sprintf("Receive returned %v only %v after its cancel", err, time.Since(cancelAt)))
 						mu.Unlock()
@@ -469,9 +474,7 @@ func TestC13Queue(t *testing.T) {
 		stopAll()
 		done := make(chan struct{})
 		go func() { rwg.Wait(); close(done) }()
-		select {
-		case <-done:
-		case <-time.After(3 * time.Second):
+		if !ev.PatientCh(3*time.Second, done) {
 			t.Fatalf("a Receive call did not return within 3 s of its context being cancelled\ncase: %s", desc)
 		}
 		q.Close()
@@ -507,16 +510,7 @@ func TestC13Queue(t *testing.T) {
 }
 
 func waitUntil(timeout time.Duration, cond func() bool) bool {
-	deadline := time.Now().Add(timeout)
-	for {
-		if cond() {
-			return true
-		}
-		if time.Now().After(deadline) {
-			return false
-		}
-		time.Sleep(200 * time.Microsecond)
-	}
+	return ev.Patient(timeout, cond)
 }
 
 // TestC13SwarmCancel: cancellation through real swarms.
@@ -524,6 +518,7 @@ func TestC13SwarmCancel(t *testing.T) {
 	const sub = "C13.swarm_cancel"
 	ev.Rule(sub, "rapid: Receive / ServeAsk on the in-memory virtual swarm and Receive on the UDP swarm, each with a context cancelled after 0-20 ms while 0-3 competing receivers stay blocked and 0-5 messages arrive around the cancel time. Oracle: the cancelled call returns the context's error within 500 ms; every message told is seen by at most one receiver and none is consumed by the cancelled call without its callback running. non-trivial = >= 1 competing receiver or message in flight; distinct by (swarm, program)")
 	rapid.Check(t, func(t *rapid.T) {
+		c13CaseStart = time.Now()
 		kind := rapid.SampledFrom([]string{"mem-receive", "mem-serveask", "udp-receive"}).Draw(t, "swarm")
 		cancelMs := rapid.IntRange(0, 20).Draw(t, "cancelAfterMs")
 		competing := rapid.IntRange(0, 3).Draw(t, "competing")
@@ -610,9 +605,9 @@ func TestC13SwarmCancel(t *testing.T) {
 		cancel()
 		var out outcome
 		late := false
-		select {
-		case out = <-res:
-		case <-time.After(promptness):
+		if o, returned := ev.PatientRecv(promptness, res); returned {
+			out = o
+		} else {
 			late = true
 		}
 		if competing > 0 || msgs > 0 {
